@@ -168,6 +168,9 @@ var c12Extra = []struct {
 	// deferred work below two levels of query copies: three array dimensions, a join inside a join side
 	{"async-nested-from-3d", "SELECT ASYNC.HMID(a) AS e, id FROM cube", false, true},
 	{"async-three-way-join", "SELECT * FROM (SELECT ASYNC.HMID(a) AS e, b FROM t) x JOIN u y ON x.b = y.b JOIN u z ON y.b = z.b", true, false},
+	{"limit-offset", "SELECT id FROM t LIMIT 2 OFFSET 1", false, false},
+	{"union-limit-offset", "SELECT id FROM t UNION ALL SELECT c AS id FROM u LIMIT 3 OFFSET 2", false, false},
+	{"derived-limit-offset", "SELECT * FROM (SELECT id FROM t LIMIT 2 OFFSET 1) AS d", false, false},
 	{"union-async-both", "SELECT ASYNC.HMID(a) AS m, id FROM t UNION SELECT ASYNC.HFAST(a) AS m, id FROM t", false, true},
 }
 
